@@ -240,7 +240,7 @@ int main(int argc, char **argv) {
     if (!secondary) { for (int i = 0; i < 12; i++) unlink(fmt("%s/%s-viol-%d.json", replays_dir.c_str(), id.c_str(), i).c_str()); }
     else { for (int i = 0; i < 12; i++) unlink(fmt("%s/%s-viol-s%d.json", replays_dir.c_str(), id.c_str(), i).c_str()); }
     double t0 = now_s();
-    if (deadline <= 0) deadline = tier == "quick" ? 100 : 1500;
+    if (deadline <= 0) deadline = tier == "quick" ? 100 : 3000;
     if (getenv("VERIF_DEADLINE_S")) deadline = atof(getenv("VERIF_DEADLINE_S"));
     std::vector<pid_t> pids;
     Str base = fmt("%s/%s.%d", tmpdir.c_str(), id.c_str(), (int)getpid());
